@@ -26,7 +26,7 @@ What makes a good change:
 How to build and run the existing tests (takes ~5 min to build with -j8, ~2.5 min to run; do the first full build once, later builds are incremental):
   cmake -S {wt} -B {wt}/_build -G Ninja -DCMAKE_BUILD_TYPE=RelWithDebInfo -DBUILD_TESTING=ON -DBOOST_MQTT5_PUBLIC_BROKER_TESTS=ON -DCMAKE_CXX_FLAGS=-Wno-error > /dev/null
   cmake --build {wt}/_build -j8 2>&1 | tail -3
-  ctest --test-dir {wt}/_build --timeout 900 --output-on-failure 2>&1 | tail -5
+  ctest --test-dir {wt}/_build/test --timeout 900 --output-on-failure 2>&1 | tail -5
 (Please use -j8, other builds run on this machine at the same time. Boost 1.83 headers are in /usr/include; compilers: g++ 12, clang++-14.)
 The test tree ({wt}/test) has helpers you may reuse in your demonstration (test/include/test_common/*.hpp: a scripted test_broker / test_stream, message_exchange, packet_util). A demonstration can also be a stand-alone program that only includes the library headers. Keep demonstrations deterministic and quick (seconds).
 
